@@ -2,6 +2,8 @@
 #![allow(dead_code)]
 //   a5h gen <PROP> <tier> <seed> <outdir> [key=value ...]   -> ND-JSON traces + summary.json
 mod compact;
+mod geom;
+mod hilbert;
 mod ids;
 mod util;
 
@@ -30,6 +32,8 @@ fn main() {
                 "C07" => ids::gen_c07(tier, seed, out),
                 "C08" => compact::gen_c08(tier, seed, out, mc),
                 "C10" => compact::gen_c10(tier, seed, out, mc),
+                "C17" => hilbert::gen_anchors("C17", tier, seed, out),
+                "C12" => hilbert::gen_c12(tier, seed, out),
                 "C09" => ids::gen_c09(tier, seed, out, mc, true),
                 _ => {
                     eprintln!("unknown property {}", prop);
